@@ -246,9 +246,26 @@ def check_iterator(ctx, M, enc, layer, dtype, work, rng, chunk_sizes,
                               f'get_batch({rows}, sparse={sparse}) wrong; '
                               f'{what}')
             # separate class: row lists with repeats
+            rep_lists = []
             if n_rows >= 1:
-                rows = [int(x) for x in rng.integers(0, n_rows,
-                                                     size=n_rows + 1)]
+                rep_lists.append([int(x) for x in rng.integers(
+                    0, n_rows, size=n_rows + 1)])
+                rep_lists.append([int(x) for x in rng.integers(
+                    0, n_rows, size=int(rng.integers(2, n_rows + 3)))])
+            if n_rows >= 3:
+                # repeats that exactly fill the gaps of a span: the list
+                # is as long as max-min+1 but does not cover the span
+                a = int(rng.integers(0, n_rows - 2))
+                b = int(rng.integers(a + 2, n_rows))
+                inner = [r for r in range(a + 1, b) if rng.random() < 0.5]
+                missing = (b - a - 1) - len(inner)
+                if missing > 0:
+                    base = [a, b] + inner
+                    lst = base + [base[int(rng.integers(len(base)))]
+                                  for _ in range(missing)]
+                    rng.shuffle(lst)
+                    rep_lists.append([int(x) for x in lst])
+            for rows in rep_lists:
                 try:
                     res = it.get_batch(rows, sparse=False)
                     ctx.bump('get_batch_repeats_checked')
